@@ -632,8 +632,26 @@ let op_query opidx (impl : string list option) toks =
        | _ -> ())
   | _ -> ()
 
+(* cookie <len> <mode> [arg]: the DTLS HelloVerify cookie is accepted exactly when it is the whole genuine cookie
+   (time stamp + keyed hash, 40 octets), unaltered and at most 5 seconds old; nothing beyond its len octets is read
+   (the latter is AddressSanitizer's part: the cookie sits in an exact-size block) *)
+let op_cookie opidx (impl : string list option) toks =
+  match toks with
+  | len :: mode :: rest ->
+      let len = int_of_string len and arg = (match rest with a :: _ -> int_of_string a | [] -> 0) in
+      let want = len = 40 && (mode = "g" || (mode = "o" && arg <= 5)) in
+      pr "obs %d cookie genuine=40 len=%d accept=%d\n" opidx len (if want then 1 else 0);
+      (match impl with
+       | Some ("cookie" :: kvs) ->
+           let acc = get (kv kvs) "accept" "?" in
+           spec opidx "C07_cookie_whole_and_genuine" (acc = (if want then "1" else "0"))
+             (Printf.sprintf "cookie of %d octets (mode %s %d) accept=%s" len mode arg acc)
+       | _ -> ())
+  | _ -> ()
+
 let run (opidx : int) (impl : string list option) (toks : string list) : bool =
   match toks with
+  | "cookie" :: rest -> op_cookie opidx impl rest; true
   | "query" :: rest -> op_query opidx impl rest; true
   | "parsei" :: _k :: sec :: rq :: pkt :: _ -> op_parse opidx impl [ sec; rq; pkt ]; true   (* the verdict is that of the packet alone *)
   | "dynext" :: rest -> op_dynext opidx impl rest; true
